@@ -74,6 +74,8 @@ def run(ctx):
     # defect switches must be caught by the model (non-vacuity of the properties)
     ctx.model_check("MCLRU", mc_cfg(touch_get="FALSE"), name="MCLRU-defect-touch", expect_violation="RecencyOrder")
     ctx.model_check("MCLRU", mc_cfg(expire_by="accessed"), name="MCLRU-defect-expiry", expect_violation="ActionProps")
+    # unbounded: TLAPS proof that inserting a new key never takes the cache above its capacity
+    ctx.tlaps("LRUProof")
     # (A) transition dump -> tours on the real object
     dump = os.path.join(ctx.work, "lru-dump.ndjson")
     r2 = ctx.tlc("MCLRU", mc_cfg(caps="{2}" if quick else "{1, 2}", ttls="{1}" if quick else "{0, 1}", maxcount=2,
